@@ -4,7 +4,7 @@
 import ClockBound.Model.SeqlockSys
 import ClockBound.Proofs.SeqlockReader
 namespace ClockBound.C03
-open ClockBound ClockBound.SL
+open ClockBound ClockBound.SL ClockBound.SLR
 
 /-- reachable reader views are consistent with the log, so the catch-up theorems apply to them -/
 theorem reachable_viewOk (a : Ann) (ver gen : Nat) (cells0 : List Nat)
